@@ -408,10 +408,11 @@ func directed() []Directed {
 		}},
 		{Name: "pruned-fill-clamped-to-floor", Pruning: true, Ops: func(int) []Op {
 			return []Op{
-				st(9, nil), {Kind: "snap"}, st(2, nil), st(1, evA), st(1, evB), st(2, nil), // 15 blocks, A in 11, B in 12
-				{Kind: "prune", N: 11}, {Kind: "restart"}, // snapshot next = 9 < floor: fill from the floor
-				qu(filtA, 11, 14, 2, 0), qu(filtB, 11, 14, 2, 0), qu(filtA, 10, 14, 2, 0),
-				{Kind: "snap"}, {Kind: "prune", N: 12}, {Kind: "restart"}, qu(filtB, 12, 14, 1, 0), qu(filtA, 12, 14, 1, 0),
+				st(9, nil), {Kind: "snap"}, st(16, nil), st(1, evA), st(1, evB), st(2, nil), // 29 blocks, A in 25, B in 26
+				// snapshot next = 9 < floor - BlockHashLag: header 9 is gone, the fill must start at the floor
+				{Kind: "prune", N: 25}, {Kind: "restart"},
+				qu(filtA, 25, 28, 2, 0), qu(filtB, 25, 28, 2, 0), qu(filtA, 24, 28, 2, 0),
+				{Kind: "snap"}, {Kind: "prune", N: 26}, {Kind: "restart"}, qu(filtB, 26, 28, 1, 0), qu(filtA, 26, 28, 1, 0),
 			}
 		}},
 		{Name: "pruned-across-window-boundary", Near: true, Pruning: true, Ops: func(h int) []Op {
@@ -454,6 +455,17 @@ func directed() []Directed {
 				st(1, evB), qu(filtA, 0, 9, 2, 0), qu(filtB, 0, 9, 2, 0),
 				{Kind: "restartfault"}, {Kind: "restart"}, qu(filtB, 0, 9, 2, 0), // a restart re-arms too
 				{Kind: "restartfault"}, rv(1), rv(1), qu(filtA, 0, 9, 2, 0),
+			}
+		}},
+		{Name: "pruned-database-opened-without-prune-mode", Pruning: true, Ops: func(int) []Op {
+			return []Op{
+				st(24, nil), st(1, evA), st(1, evB), st(2, nil), // 28 blocks, A in 24, B in 25
+				{Kind: "snap"}, {Kind: "prune", N: 24}, {Kind: "restartcore"}, // graceful stop: the snapshot is trusted, all is well
+				qu(filtA, 24, 27, 2, 0), qu(filtA, 23, 27, 2, 0),
+				{Kind: "restart"}, st(1, evA), rv(1), // the reorg drops the snapshot …
+				{Kind: "restartcore"},                            // … and the initialiser without the floor walks back to the pruned headers
+				qu(filtA, 24, 27, 2, 0), qu(filtB, 24, 27, 2, 0), // open finding: retained events cannot be queried
+				{Kind: "restart"}, qu(filtA, 24, 27, 2, 0), qu(filtB, 24, 27, 2, 0), // with --prune-mode the same database answers
 			}
 		}},
 		{Name: "crash-inside-the-initialiser", Near: true, Ops: func(h int) []Op {
@@ -609,6 +621,22 @@ func probeVariant(bases *Base, r *lib.RNG) Variant {
 		w.do(Op{Kind: "restartfault"})
 		pg := realPage(w.Node, w, Q{F: filtA, From: 0, To: 1, Chunk: 5}, nil, "")
 		v.InitRetry = pg.Err == ""
+		if tmp.Fatal != nil {
+			panic(fmt.Sprintf("probe failed: %v", tmp.Fatal))
+		}
+	}
+	// does a Blockchain without an initialiser option cope with a pruned database?
+	{
+		tmp := lib.NewResult("probe")
+		w := newWorld("probe:default-init", r.Fork(398), tmp, nil, Variant{}, false, true)
+		w.do(st(24, nil))
+		w.do(st(1, evA))
+		w.do(st(2, nil))
+		w.do(Op{Kind: "prune", N: 24})
+		w.Node.Pruner = false
+		w.Node.open()
+		pg := realPage(w.Node, w, Q{F: filtA, From: 24, To: 26, Chunk: 5}, nil, "")
+		v.DefaultInitFloorAware = pg.Err == ""
 		if tmp.Fatal != nil {
 			panic(fmt.Sprintf("probe failed: %v", tmp.Fatal))
 		}
